@@ -259,12 +259,18 @@ class QuickSampler:
         Stores all current parameters used with the sampler in a list and
         returns this.
         """
+        # Rules can be added to a PostSelection object in place, so the rules
+        # which it currently holds are stored alongside the object
+        post_select_rules = [
+            rule.as_tuple() for rule in getattr(self.post_select, "rules", [])
+        ]
         # Store circuit unitary and input state
         return [
             self.__circuit.U_full,
             self.__circuit.heralds,
             self.input_state,
             self.post_select,
+            post_select_rules,
             self.photon_counting,
         ]
 
